@@ -1,4 +1,6 @@
 import IgrisModel.C16.Model
+import IgrisModel.C16.Wrap
+import IgrisModel.C16.Ext
 import IgrisModel.Common.Proto
 open Igris.Proto Igris.C16
 
@@ -6,18 +8,35 @@ open Igris.Proto Igris.C16
 structure Rule where
   id : Option Nat
   k : Option Nat
-  acts : List Action
+  acts : List ActX
 
-def parseAct? (s : String) : Option Action :=
+def parseAct? (s : String) : Option ActX :=
   match s.toList with
-  | 'u' :: rest => (String.ofList rest).toNat?.map Action.unplan
+  | 'u' :: rest => (String.ofList rest).toNat?.map ActX.unplan
+  | 'r' :: rest => (String.ofList rest).toNat?.map ActX.replan
+  | 'd' :: rest => (String.ofList rest).toNat?.map ActX.destroy
+  | 'x' :: rest => (String.ofList rest).toInt?.map ActX.exec
   | 'p' :: rest =>
     match (String.ofList rest).splitOn "." with
     | [j, st, iv] => do
         let j ← j.toNat?
         let st ← st.toInt?
         let iv ← iv.toInt?
-        pure (Action.plan j st iv)
+        pure (ActX.plan j st iv)
+    | _ => none
+  | 's' :: rest =>
+    match (String.ofList rest).splitOn "." with
+    | [j, v] => do
+        let j ← j.toNat?
+        let v ← v.toInt?
+        pure (ActX.setStart j v)
+    | _ => none
+  | 'i' :: rest =>
+    match (String.ofList rest).splitOn "." with
+    | [j, v] => do
+        let j ← j.toNat?
+        let v ← v.toInt?
+        pure (ActX.setInterval j v)
     | _ => none
   | _ => none
 
@@ -39,15 +58,34 @@ def parseRule? (s : String) : Option Rule :=
 def parseRules? (s : String) : Option (List Rule) :=
   if s = "-" then some [] else (s.splitOn ";").mapM parseRule?
 
-def cbOf (rules : List Rule) : Cb := fun k i =>
+def cbXOf (rules : List Rule) : CbX := fun k i =>
   rules.flatMap fun r =>
     if (r.id = none ∨ r.id = some i) ∧ (r.k = none ∨ r.k = some k) then r.acts else []
 
-/-- driver state: number of timers, manager, last `now`; or a stimer -/
+/-- the plan/unplan part of an action (`none`: not expressible in `Action`) -/
+def baseAct? : ActX → Option Action
+  | .unplan j => some (.unplan j)
+  | .plan j s iv => some (.plan j s iv)
+  | _ => none
+
+/-- the rules as callbacks of the base model — defined when every act is `plan`/`unplan` -/
+def cbOf? (rules : List Rule) : Option Cb :=
+  if rules.all (fun r => r.acts.all (fun a => (baseAct? a).isSome)) then
+    some fun k i =>
+      rules.flatMap fun r =>
+        if (r.id = none ∨ r.id = some i) ∧ (r.k = none ∨ r.k = some k) then r.acts.filterMap baseAct? else []
+  else none
+
+/-- driver state -/
 inductive St where
   | none
-  | mgr (n : Nat) (m : Mgr) (cur : Int)
+  /-- `timer_manager` over int64: number of timers, manager, last `now`, the unarmed timer (if any) -/
+  | mgr (n : Nat) (m : Mgr) (cur : Int) (unarmed : Option Nat)
+  /-- `timer_manager_basic<timer_spec<uint32_t>>`; op lines carry unbounded tick values -/
+  | mgrW (n : Nat) (m : MgrW) (cur : W32)
   | st (t : STimer)
+  /-- stimer with tick values that may lie beyond `LONG_MAX` (read modulo 2^64) -/
+  | stW (t : STimerW)
 
 def summary (n : Nat) (m : Mgr) (cur : Int) : String :=
   let ts := (List.range n).map fun i =>
@@ -55,11 +93,23 @@ def summary (n : Nat) (m : Mgr) (cur : Int) : String :=
   "t=" ++ ",".intercalate ts ++ " e=" ++ (if m.empty then "1" else "0") ++ " m=" ++
     (match m.minimalInterval cur with | some d => toString d | none => "-")
 
+def summaryW (n : Nat) (m : MgrW) (cur : W32) : String :=
+  let ts := (List.range n).map fun i =>
+    toString (m.tm i).finish.toNat ++ "/" ++ (if i ∈ m.lst then "1" else "0")
+  "t=" ++ ",".intercalate ts ++ " e=" ++ (if m.empty then "1" else "0") ++ " m=" ++
+    (match m.minimalInterval cur with | some d => toString d.toNat | none => "-")
+
 def showFires (fs : List Fire) : String :=
   if fs.isEmpty then "-" else ",".intercalate (fs.map fun f => toString f.id ++ ":" ++ toString f.deadline)
 
+def showFiresW (fs : List FireW) : String :=
+  if fs.isEmpty then "-" else ",".intercalate (fs.map fun f => toString f.id ++ ":" ++ toString f.deadline.toNat)
+
 def showST (t : STimer) : String :=
   toString t.start ++ " " ++ toString t.interval ++ " " ++ (if t.planed then "1" else "0")
+
+def showSTW (t : STimerW) : String :=
+  toString t.start.toInt ++ " " ++ toString t.interval.toInt ++ " " ++ (if t.planed then "1" else "0")
 
 /-- the model loop is given this many iterations; more means `nonterm` -/
 def driverFuel : Nat := 30000
@@ -70,74 +120,168 @@ def compact (n : Nat) (m : Mgr) : Mgr :=
   let arr := ((List.range n).map m.tm).toArray
   { m with tm := fun i => if i < n then arr.getD i {} else m.tm i }
 
+def compactW (n : Nat) (m : MgrW) : MgrW :=
+  let arr := ((List.range n).map m.tm).toArray
+  { m with tm := fun i => if i < n then arr.getD i {} else m.tm i }
+
+/-- the repaired code compares deadlines by the sign of their difference -/
+def drvCmp : Cmp := .signedDiff
+
+def stepMgr (n : Nat) (m : Mgr) (cur : Int) (un : Option Nat) (op : String) (args : List String) :
+    Option (St × String) :=
+  let ret (m' : Mgr) (cur' : Int) (s : String) : Option (St × String) := some (.mgr n (compact n m') cur' un, s)
+  match op, args with
+  | "plan", [i, st, iv] | "plan1", [i, st, iv] => do
+    let i ← i.toNat?; let st ← st.toInt?; let iv ← iv.toInt?
+    let m' := m.plan3 i st iv
+    ret m' cur (summary n m' cur)
+  | "unplan", [i] => do
+    let i ← i.toNat?
+    let m' := m.unplan i
+    ret m' cur (summary n m' cur)
+  | "sets", [i, v] => do
+    let i ← i.toNat?; let v ← v.toInt?
+    let m' := m.setStart i v
+    ret m' cur (summary n m' cur)
+  | "seti", [i, v] => do
+    let i ← i.toNat?; let v ← v.toInt?
+    let m' := m.setInterval i v
+    ret m' cur (summary n m' cur)
+  | "replan", [i] => do
+    let i ← i.toNat?
+    let m' := m.plan i
+    ret m' cur (summary n m' cur)
+  | "destroy", [i] => do
+    let i ← i.toNat?
+    let m' := m.destroy i
+    ret m' cur (summary n m' cur)
+  | "dropmgr", [] =>
+    let m' := m.dropMgr
+    ret m' cur (summary n m' cur)
+  | "exec", [now, rules] => do
+    let now ← now.toInt?
+    let rules ← parseRules? rules
+    -- an unarmed timer's `execute()` does nothing and is not seen by the harness
+    let rules := match un with
+      | some u => rules.map fun r => { r with acts := if r.id = some u then [] else r.acts }
+      | Option.none => rules
+    let vis (fs : List Fire) := match un with
+      | some u => fs.filter (fun f => f.id != u)
+      | Option.none => fs
+    match cbOf? rules, un with
+    | some cb, Option.none =>
+      let r := execLoop cb now driverFuel 0 m
+      if r.2.2 then ret r.1 now ("f=" ++ showFires r.2.1 ++ " " ++ summary n r.1 now)
+      else some (.mgr n r.1 now un, "nonterm")
+    | _, _ =>
+      let cbx : CbX := fun k i => if some i = un then [] else cbXOf rules k i
+      let r := execX cbx driverFuel now 0 m
+      match r.2.2 with
+      | .done => ret r.1 now ("f=" ++ showFires (vis r.2.1) ++ " " ++ summary n r.1 now)
+      | .running => some (.mgr n r.1 now un, "nonterm")
+      | .uaf => some (.mgr n r.1 now un, "fault")
+  | "qmin", [now] => do
+    let now ← now.toInt?
+    some (.mgr n m now un, match m.minimalInterval now with | some d => toString d | Option.none => "fault")
+  | "q", [now] => do
+    let now ← now.toInt?
+    some (.mgr n m now un, summary n m now)
+  | _, _ => Option.none
+
+def baseActs? (rules : List Rule) : Option CbW :=
+  (cbOf? rules).map cbToW
+
+def stepMgrW (n : Nat) (m : MgrW) (cur : W32) (op : String) (args : List String) : Option (St × String) :=
+  let ret (m' : MgrW) (cur' : W32) (s : String) : Option (St × String) := some (.mgrW n (compactW n m') cur', s)
+  match op, args with
+  | "plan", [i, st, iv] | "plan1", [i, st, iv] => do
+    let i ← i.toNat?; let st ← st.toInt?; let iv ← iv.toInt?
+    let m' := m.plan3 drvCmp i (wr st) (wr iv)
+    ret m' cur (summaryW n m' cur)
+  | "unplan", [i] => do
+    let i ← i.toNat?
+    let m' := m.unplan i
+    ret m' cur (summaryW n m' cur)
+  | "exec", [now, rules] => do
+    let now ← now.toInt?
+    let rules ← parseRules? rules
+    let cb ← baseActs? rules
+    let r := execLoopW drvCmp cb (wr now) driverFuel 0 m
+    if r.2.2 then ret r.1 (wr now) ("f=" ++ showFiresW r.2.1 ++ " " ++ summaryW n r.1 (wr now))
+    else some (.mgrW n r.1 (wr now), "nonterm")
+  | "q", [now] => do
+    let now ← now.toInt?
+    some (.mgrW n m (wr now), summaryW n m (wr now))
+  | _, _ => Option.none
+
+def stepST (t : STimer) (op : String) (args : List String) : Option (St × String) :=
+  match op, args with
+  | "sinit", [a, b] => do
+    let a ← a.toInt?; let b ← b.toInt?
+    let t' := stimerInit t a b; some (.st t', showST t')
+  | "splan", [a, b] => do
+    let a ← a.toInt?; let b ← b.toInt?
+    let t' := stimerPlan t a b; some (.st t', showST t')
+  | "sstart", [a] => do
+    let a ← a.toInt?
+    let t' := stimerStart t a; some (.st t', showST t')
+  | "sswift", [] => let t' := stimerSwift t; some (.st t', showST t')
+  | "sfinish", [] => some (.st t, toString (stimerFinish t))
+  | "scheck", [a] => do
+    let a ← a.toInt?
+    some (.st t, if stimerCheck t a then "1" else "0")
+  | "speriodic", [a] => do
+    let a ← a.toInt?
+    let r := stimerPeriodic t a
+    some (.st r.1, (if r.2 then "1 " else "0 ") ++ showST r.1)
+  | _, _ => Option.none
+
+def stepSTW (t : STimerW) (op : String) (args : List String) : Option (St × String) :=
+  match op, args with
+  | "sinit", [a, b] => do
+    let a ← a.toInt?; let b ← b.toInt?
+    let t' : STimerW := ⟨wr64 a, wr64 b, false⟩; some (.stW t', showSTW t')
+  | "splan", [a, b] => do
+    let a ← a.toInt?; let b ← b.toInt?
+    let t' : STimerW := ⟨wr64 a, wr64 b, true⟩; some (.stW t', showSTW t')
+  | "sstart", [a] => do
+    let a ← a.toInt?
+    let t' : STimerW := { t with start := wr64 a, planed := true }; some (.stW t', showSTW t')
+  | "sswift", [] => let t' := stimerSwiftW t; some (.stW t', showSTW t')
+  | "sfinish", [] => some (.stW t, toString (stimerFinishW t).toNat)
+  | "scheck", [a] => do
+    let a ← a.toInt?
+    some (.stW t, if stimerCheckW t (wr64 a) then "1" else "0")
+  | "speriodic", [a] => do
+    let a ← a.toInt?
+    let r := stimerPeriodicW t (wr64 a)
+    some (.stW r.1, (if r.2 then "1 " else "0 ") ++ showSTW r.1)
+  | _, _ => Option.none
+
 def stepLine (s : St) (line : String) : St × String :=
   let bad := (s, "bad-op")
   match words line with
   | ["reset", "s"] => (.st {}, "ok")
+  | ["reset", "S"] => (.stW {}, "ok")
+  | ["reset", "u", n] | ["reset", "U", n] =>
+    match n.toNat? with
+    | some n => (.mgrW n MgrW.init 0, "ok")
+    | Option.none => bad
+  | ["reset", "z", n] =>
+    match n.toNat? with
+    | some n => (.mgr n Mgr.init 0 (some (n - 1)), "ok")
+    | Option.none => bad
   | ["reset", n] =>
     match n.toNat? with
-    | some n => (.mgr n Mgr.init 0, "ok")
-    | none => bad
+    | some n => (.mgr n Mgr.init 0 Option.none, "ok")
+    | Option.none => bad
   | op :: args =>
     match s with
     | .none => bad
-    | .mgr n m cur =>
-      match op, args with
-      | "plan", [i, st, iv] | "plan1", [i, st, iv] =>
-        match i.toNat?, st.toInt?, iv.toInt? with
-        | some i, some st, some iv =>
-          let m' := m.plan3 i st iv
-          (.mgr n (compact n m') cur, summary n m' cur)
-        | _, _, _ => bad
-      | "unplan", [i] =>
-        match i.toNat? with
-        | some i => let m' := m.unplan i; (.mgr n (compact n m') cur, summary n m' cur)
-        | none => bad
-      | "exec", [now, rules] =>
-        match now.toInt?, parseRules? rules with
-        | some now, some rules =>
-          let r := execLoop (cbOf rules) now driverFuel 0 m
-          if r.2.2 then
-            (.mgr n (compact n r.1) now, "f=" ++ showFires r.2.1 ++ " " ++ summary n r.1 now)
-          else (.mgr n r.1 now, "nonterm")
-        | _, _ => bad
-      | "qmin", [now] =>
-        match now.toInt? with
-        | some now =>
-          (.mgr n m now, match m.minimalInterval now with | some d => toString d | none => "fault")
-        | none => bad
-      | "q", [now] =>
-        match now.toInt? with
-        | some now => (.mgr n m now, summary n m now)
-        | none => bad
-      | _, _ => bad
-    | .st t =>
-      match op, args with
-      | "sinit", [a, b] =>
-        match a.toInt?, b.toInt? with
-        | some a, some b => let t' := stimerInit t a b; (.st t', showST t')
-        | _, _ => bad
-      | "splan", [a, b] =>
-        match a.toInt?, b.toInt? with
-        | some a, some b => let t' := stimerPlan t a b; (.st t', showST t')
-        | _, _ => bad
-      | "sstart", [a] =>
-        match a.toInt? with
-        | some a => let t' := stimerStart t a; (.st t', showST t')
-        | none => bad
-      | "sswift", [] => let t' := stimerSwift t; (.st t', showST t')
-      | "sfinish", [] => (s, toString (stimerFinish t))
-      | "scheck", [a] =>
-        match a.toInt? with
-        | some a => (s, if stimerCheck t a then "1" else "0")
-        | none => bad
-      | "speriodic", [a] =>
-        match a.toInt? with
-        | some a =>
-          let r := stimerPeriodic t a
-          (.st r.1, (if r.2 then "1 " else "0 ") ++ showST r.1)
-        | none => bad
-      | _, _ => bad
+    | .mgr n m cur un => (stepMgr n m cur un op args).getD bad
+    | .mgrW n m cur => (stepMgrW n m cur op args).getD bad
+    | .st t => (stepST t op args).getD bad
+    | .stW t => (stepSTW t op args).getD bad
   | _ => bad
 
 def main : IO Unit := run St.none stepLine
